@@ -46,9 +46,9 @@ static void o_bytes(obuf *o, const void *p, size_t n) {
 static void o_u64(obuf *o, uint64_t v) { o_bytes(o, &v, 8); }
 
 /* ---------------------------------------------------------------- fixed inputs */
-#define NIN 5
+#define NIN 6
 static uint64_t IN[NIN][160];
-static const size_t INN[NIN] = {1, 5, 21, 130, 21};
+static const size_t INN[NIN] = {1, 5, 21, 130, 21, 21};
 static void build_inputs(void) {
     IN[0][0] = 300;
     for (size_t i = 0; i < 5; i++) {
@@ -63,6 +63,12 @@ static void build_inputs(void) {
     for (size_t i = 0; i < 21; i++) { /* same count as input 2, different data: the stale-metadata trap */
         IN[4][i] = (i % 4) * 1000003ULL + 7;
     }
+    /* the twin of input 2: same count, same sum, same last element - one unit moved from the minimum element to a
+     * middle one, so the minimum, the frame and the deltas differ while cheap summaries of the data (length, sum)
+     * do not */
+    memcpy(IN[5], IN[2], sizeof IN[5]);
+    IN[5][0] -= 1;
+    IN[5][8] += 1;
 }
 
 /* large inputs (above the library's 10000-element sampling threshold), used by the op_large_* operations only */
@@ -716,24 +722,24 @@ static void add(const char *name, opfn fn, int arg, int inputs_mask, int triples
     }
 }
 static void build_ops(void) {
-    const int ALL = 0x1f, MID = 0x16 /* inputs 1,2,4 */, TWO = 0x14 /* 2,4: equal counts */;
-    add("delta.EncodeUnsigned/DecodeUnsigned", op_delta_u, 0, MID, 0);
+    const int ALL = 0x1f, MID = 0x16 /* inputs 1,2,4 */, TWO = 0x14 /* 2,4: equal counts */, TWIN = 0x20 /* input 5: the twin of input 2 */;
+    add("delta.EncodeUnsigned/DecodeUnsigned", op_delta_u, 0, MID | TWIN, 0);
     add("delta.Encode/Decode", op_delta_s, 0, TWO, 0);
-    add("FOR.Encode(NULL meta)", op_for_enc, 0, ALL, 1);
+    add("FOR.Encode(NULL meta)", op_for_enc, 0, ALL | TWIN, 1);
     add("FOR.Encode(zeroed meta)", op_for_enc, 1, MID, 1);
     add("FOR.BatchEncode", op_for_enc, 2, 0x1c, 0);
     add("FOR.Analyze+Encode", op_for_enc, 3, TWO, 1);
     add("FOR.Decode/GetAt/ReadMetadata", op_for_dec, 0, MID | 8, 1);
     add("FOR.BatchDecode", op_for_dec, 1, 0x18, 0);
     add("PFOR.Encode(90)", op_pfor_enc, 0, TWO, 0);
-    add("PFOR.Encode(95)", op_pfor_enc, 1, ALL, 1);
+    add("PFOR.Encode(95)", op_pfor_enc, 1, ALL | TWIN, 1);
     add("PFOR.Encode(99)", op_pfor_enc, 2, TWO, 0);
-    add("PFOR.Decode(zeroed meta)", op_pfor_dec, 0, MID | 8, 1);
+    add("PFOR.Decode(zeroed meta)", op_pfor_dec, 0, MID | 8 | TWIN, 1);
     add("PFOR.Decode(ReadMeta first)", op_pfor_dec, 1, TWO, 1);
-    add("group.Encode/Decode/GetField", op_group, 0, MID, 0);
-    add("dict.Encode/Size/Stats", op_dict, 0, MID | 8, 1);
+    add("group.Encode/Decode/GetField", op_group, 0, MID | TWIN, 0);
+    add("dict.Encode/Size/Stats", op_dict, 0, MID | 8 | TWIN, 1);
     add("dict.Decode/DecodeInto/Build", op_dict, 1, MID, 1);
-    add("RLE.Encode/Decode/GetAt", op_rle, 0, MID, 0);
+    add("RLE.Encode/Decode/GetAt", op_rle, 0, MID | TWIN, 0);
     add("RLE.EncodeWithHeader/DecodeWithHeader", op_rle, 1, TWO, 0);
     add("elias.Gamma", op_elias, 0, TWO, 0);
     add("elias.Delta", op_elias, 1, TWO, 0);
@@ -741,17 +747,17 @@ static void build_ops(void) {
     add("BP128.DeltaEncode64/DeltaDecode64", op_bp128, 1, 0x1c, 0);
     add("BP128.Encode32/Decode32", op_bp128, 2, 0x18, 0);
     add("BP128.DeltaEncode32/DeltaDecode32", op_bp128, 3, 0x18, 0);
-    add("adaptive.Encode", op_adaptive_enc, -1, ALL, 1);
+    add("adaptive.Encode", op_adaptive_enc, -1, ALL | TWIN, 1);
     for (int t = 0; t <= 5; t++) {
         static const char *N[6] = {"adaptive.EncodeWith(DELTA)", "adaptive.EncodeWith(FOR)", "adaptive.EncodeWith(PFOR)", "adaptive.EncodeWith(DICT)", "adaptive.EncodeWith(BITMAP)", "adaptive.EncodeWith(TAGGED)"};
-        add(N[t], op_adaptive_enc, t, TWO, t == 1 || t == 2);
+        add(N[t], op_adaptive_enc, t, (t == 1 || t == 2) ? TWO | TWIN : TWO, t == 1 || t == 2);
     }
     add("adaptive.Decode(auto)", op_adaptive_dec, -1, MID, 1);
     add("adaptive.Decode(FOR)", op_adaptive_dec, 1, TWO, 1);
     add("adaptive.Decode(PFOR)", op_adaptive_dec, 2, TWO, 1);
     add("adaptive.Decode(DICT)", op_adaptive_dec, 3, 4, 0);
     add("adaptive.Decode(BITMAP)", op_adaptive_dec, 4, 4, 0);
-    add("adaptive.Analyze/Select", op_adaptive_stats, 0, MID, 0);
+    add("adaptive.Analyze/Select", op_adaptive_stats, 0, MID | TWIN, 0);
     add("float.Encode/Decode(HIGH,COMMON)", op_float, 1 | (1 << 2), TWO, 0);
     add("float.Encode/Decode(FULL,DELTA)", op_float, 0 | (2 << 2), 4, 0);
     add("float.Encode/Decode(LOW,INDEPENDENT)", op_float, 3, 4, 0);
@@ -776,10 +782,14 @@ static void build_ops(void) {
     add("large FOR/RLE/BP128 [scattered]", op_large, 7, 1, 0);
 }
 
+/* every operation reads its input from the SAME caller buffer (a caller that reuses one array for successive data
+ * sets): whatever the library may remember about "the array at this address" is wrong for the next call */
+static uint64_t WORK[160];
 static void run_op(int i, obuf *o) {
     o->len = 0;
     o->overflow = 0;
-    OPS[i].fn(o, IN[OPS[i].input], INN[OPS[i].input], OPS[i].arg);
+    memcpy(WORK, IN[OPS[i].input], sizeof WORK);
+    OPS[i].fn(o, WORK, INN[OPS[i].input], OPS[i].arg);
 }
 
 /* ---------------------------------------------------------------- residue */
